@@ -1,66 +1,207 @@
-// C05-K1: the tap-hold decision function, `WaitingState::tick_wt` -> `handle_hold_tap`.
+// C05-K1: the tap-hold decision function, `WaitingState::tick_wt` -> `handle_hold_tap`,
+// for the three built-in variants.  The custom (release-keys / except-keys) closures
+// live in the parser crate and are checked there (parser/cfg~custom_tap_hold__c05.rs).
 
-fn vk_c05_first_own_release(q: &Queue, c: KCoord) -> Option<u16> {
+fn vk_c05_first_own_release(q: &Queue, c: KCoord) -> Option<(usize, u16)> {
     let mut r = None;
     let mut i = 0;
     while i < q.len() {
         let e = q[i];
         if r.is_none() && e.event == Event::Release(c.0, c.1) {
-            r = Some(e.since);
+            r = Some((i, e.since));
         }
         i += 1;
     }
     r
 }
 
-// @harness name=c05_k1_default prop=C05,C02 tier=quick timeout=600
-// @encodes WaitingState::tick_wt, WaitingState::handle_hold_tap (HoldTapConfig::Default), WaitingState::is_corresponding_release
-// @bounds queue <= 3 symbolic events over 3 coordinates (thorough: 4); timeout/delay/ticks/prev_queue_len/since full u16/u8 range
-// @assumes none beyond the queue bound
-// @spec exactly one Option<WaitingAction>; never NoOp or Hold; own release queued => Tap iff timeout-1 > max(0,delay-since) else Timeout; no own release => Timeout iff timeout-1 == 0 else None; fast path (queue length unchanged and timeout-1 > 0) => None
-#[kani::proof]
-#[kani::unwind(5)]
-fn c05_k1_default() {
+/// index of the first press in the queue
+fn vk_c05_first_press(q: &Queue) -> Option<usize> {
+    let mut r = None;
+    let mut i = 0;
+    while i < q.len() {
+        if r.is_none() && q[i].event.is_press() {
+            r = Some(i);
+        }
+        i += 1;
+    }
+    r
+}
+
+/// smallest index b such that some Press(j) at a < b is followed by Release(j) at b
+fn vk_c05_first_completed_tap(q: &Queue) -> Option<usize> {
+    let mut r: Option<usize> = None;
+    let mut a = 0;
+    while a < q.len() {
+        if let Event::Press(i, j) = q[a].event {
+            let mut b = a + 1;
+            while b < q.len() {
+                if q[b].event == Event::Release(i, j) {
+                    if r.is_none() || b < r.unwrap() {
+                        r = Some(b);
+                    }
+                }
+                b += 1;
+            }
+        }
+        a += 1;
+    }
+    r
+}
+
+#[derive(Clone, Copy, PartialEq, Eq)]
+enum VkC05Variant {
+    Default,
+    Press,
+    Permissive,
+}
+
+fn vk_c05_holdtap<const N: usize>(variant: VkC05Variant) -> (Option<WaitingAction>, bool, bool) {
     let c: KCoord = (0, 0);
-    let mut w = vk_waiting_holdtap(HoldTapConfig::Default, c);
-    let (mut q, n) = vk_any_queue::<3>(3);
+    let cfg = match variant {
+        VkC05Variant::Default => HoldTapConfig::Default,
+        VkC05Variant::Press => HoldTapConfig::HoldOnOtherKeyPress,
+        VkC05Variant::Permissive => HoldTapConfig::PermissiveHold,
+    };
+    let mut w = vk_waiting_holdtap(cfg, c);
+    let (mut q, n) = vk_any_queue::<N>(3);
     let mut aq: ActionQueue<'static, u8> = ArrayDeque::new();
     let t0 = w.timeout;
     let d0 = w.delay;
     let k0 = w.ticks;
     let p0 = w.prev_queue_len;
     let own = vk_c05_first_own_release(&q, c);
+    let own_idx = match own { Some((i, _)) => i, None => usize::MAX };
+    // early trigger of the variant: (exists at all, exists before the own release)
+    let (trig_any, trig_before_own) = match variant {
+        VkC05Variant::Default => (false, false),
+        VkC05Variant::Press => match vk_c05_first_press(&q) {
+            Some(a) => (true, a < own_idx),
+            None => (false, false),
+        },
+        VkC05Variant::Permissive => match vk_c05_first_completed_tap(&q) {
+            Some(b) => (true, b < own_idx),
+            None => (false, false),
+        },
+    };
+
     let r = w.tick_wt(&mut q, &mut aq);
+
+    // bookkeeping of the step
     let t1: i32 = if t0 == 0 { 0 } else { t0 as i32 - 1 };
     assert!(w.timeout as i32 == t1);
     assert!(w.ticks == if k0 == u16::MAX { k0 } else { k0 + 1 });
-    assert!(q.len() == n);
+    assert!(q.len() == n, "the decision function must not consume queued events");
     assert!(aq.is_empty());
+    assert!(w.hold as *const _ == &VK_HOLD as *const _ && w.tap as *const _ == &VK_TAP as *const _);
+
     let fast = (n as u8 == p0) && t1 > 0;
-    let expect = if fast {
-        None
-    } else {
-        match own {
-            Some(since) => {
-                let rem = core::cmp::max(0, d0 as i32 - since as i32);
-                if t1 > rem { Some(WaitingAction::Tap) } else { Some(WaitingAction::Timeout) }
-            }
-            None => if t1 == 0 { Some(WaitingAction::Timeout) } else { None },
+    // the timing rule: release before the deadline <=> remaining timeout exceeds what was
+    // left of the initial queueing delay when the release arrived
+    let base = match own {
+        Some((_, since)) => {
+            let rem = core::cmp::max(0, d0 as i32 - since as i32);
+            if t1 > rem { Some(WaitingAction::Tap) } else { Some(WaitingAction::Timeout) }
         }
+        None => if t1 == 0 { Some(WaitingAction::Timeout) } else { None },
     };
     let ra = r.as_ref().map(|x| x.0);
-    match &r {
-        None => assert!(expect.is_none()),
-        Some((a, pq)) => {
-            let a = *a;
-            assert!(pq.is_none());
-            assert!(a != WaitingAction::NoOp && a != WaitingAction::Hold);
-            assert!(expect == Some(a));
-        }
+    if let Some((_, pq)) = &r {
+        assert!(pq.is_none());
+    }
+    assert!(ra != Some(WaitingAction::NoOp), "a tap-hold press is never dropped");
+    if fast {
+        assert!(ra.is_none(), "fast path: nothing new and not timed out");
+    } else if trig_before_own {
+        assert!(ra == Some(WaitingAction::Hold), "documented early trigger => hold");
+    } else if !trig_any {
+        assert!(ra == base, "no early trigger => tap / timeout / pending by the timing rule");
+        assert!(ra != Some(WaitingAction::Hold));
+    } else {
+        // the trigger exists but only after the own release was queued (both arrived within one
+        // tick): either resolution is accepted
+        assert!(ra == Some(WaitingAction::Hold) || ra == base);
+    }
+    if !fast {
+        assert!(w.prev_queue_len == n as u8);
     }
     kani::cover!(ra == Some(WaitingAction::Tap), "tap reachable");
     kani::cover!(ra == Some(WaitingAction::Timeout) && own.is_some(), "late release reachable");
     kani::cover!(ra == Some(WaitingAction::Timeout) && own.is_none(), "pure timeout reachable");
-    kani::cover!(ra.is_none() && !fast, "slow-path None reachable");
-    kani::cover!(ra.is_none() && fast, "fast-path None reachable");
+    kani::cover!(ra.is_none() && !fast, "slow-path pending reachable");
+    kani::cover!(ra.is_none() && fast, "fast-path pending reachable");
+    (ra, trig_any, trig_before_own)
+}
+
+fn vk_c05_holdtap_early<const N: usize>(variant: VkC05Variant) {
+    let (ra, trig_any, trig_before_own) = vk_c05_holdtap::<N>(variant);
+    kani::cover!(ra == Some(WaitingAction::Hold) && trig_before_own, "early hold reachable");
+    kani::cover!(trig_any && !trig_before_own, "trigger after own release reachable");
+}
+
+// @harness name=c05_k1_default prop=C05 tier=quick timeout=900
+// @encodes WaitingState::tick_wt, WaitingState::handle_hold_tap (HoldTapConfig::Default), WaitingState::is_corresponding_release
+// @inst Layout-independent; T = u8
+// @bounds queue <= 3 symbolic press/release events over 3 coordinates; timeout, delay, ticks, prev_queue_len and every queued `since` unconstrained u16/u8
+// @assumes none beyond the queue bound
+// @spec step bookkeeping (timeout-1 saturating, ticks+1 saturating, queue untouched); never NoOp; fast path => None; no own release => Timeout iff timeout-1 == 0 else None; own release queued => Tap iff timeout-1 > max(0, delay-since) else Timeout; never Hold
+#[kani::proof]
+#[kani::unwind(5)]
+fn c05_k1_default() {
+    vk_c05_holdtap::<3>(VkC05Variant::Default);
+}
+
+// @harness name=c05_k1_press prop=C05 tier=quick timeout=900
+// @encodes WaitingState::tick_wt, WaitingState::handle_hold_tap (HoldTapConfig::HoldOnOtherKeyPress)
+// @bounds queue <= 3 symbolic events over 3 coordinates; all scalars unconstrained
+// @assumes none beyond the queue bound
+// @spec as c05_k1_default, plus: a press queued before the own release => Hold; no press queued => timing rule and never Hold; press queued only after the own release => Hold or timing rule
+#[kani::proof]
+#[kani::unwind(5)]
+fn c05_k1_press() {
+    vk_c05_holdtap_early::<3>(VkC05Variant::Press);
+}
+
+// @harness name=c05_k1_permissive prop=C05 tier=quick timeout=900
+// @encodes WaitingState::tick_wt, WaitingState::handle_hold_tap (HoldTapConfig::PermissiveHold)
+// @bounds queue <= 3 symbolic events over 3 coordinates; all scalars unconstrained
+// @assumes none beyond the queue bound
+// @spec as c05_k1_default, plus: another key pressed AND released before the own release => Hold; no completed press+release pair => timing rule and never Hold
+#[kani::proof]
+#[kani::unwind(5)]
+fn c05_k1_permissive() {
+    vk_c05_holdtap_early::<3>(VkC05Variant::Permissive);
+}
+
+// @harness name=c05_k1_default_q4 prop=C05 tier=thorough timeout=2400
+// @encodes WaitingState::tick_wt, WaitingState::handle_hold_tap (HoldTapConfig::Default)
+// @bounds queue <= 4 symbolic events over 3 coordinates; all scalars unconstrained
+// @assumes none beyond the queue bound
+// @spec as c05_k1_default
+#[kani::proof]
+#[kani::unwind(6)]
+fn c05_k1_default_q4() {
+    vk_c05_holdtap::<4>(VkC05Variant::Default);
+}
+
+// @harness name=c05_k1_press_q4 prop=C05 tier=thorough timeout=2400
+// @encodes WaitingState::tick_wt, WaitingState::handle_hold_tap (HoldTapConfig::HoldOnOtherKeyPress)
+// @bounds queue <= 4 symbolic events over 3 coordinates; all scalars unconstrained
+// @assumes none beyond the queue bound
+// @spec as c05_k1_press
+#[kani::proof]
+#[kani::unwind(6)]
+fn c05_k1_press_q4() {
+    vk_c05_holdtap_early::<4>(VkC05Variant::Press);
+}
+
+// @harness name=c05_k1_permissive_q4 prop=C05 tier=thorough timeout=2400
+// @encodes WaitingState::tick_wt, WaitingState::handle_hold_tap (HoldTapConfig::PermissiveHold)
+// @bounds queue <= 4 symbolic events over 3 coordinates; all scalars unconstrained
+// @assumes none beyond the queue bound
+// @spec as c05_k1_permissive
+#[kani::proof]
+#[kani::unwind(6)]
+fn c05_k1_permissive_q4() {
+    vk_c05_holdtap_early::<4>(VkC05Variant::Permissive);
 }
